@@ -158,12 +158,18 @@ func (e *Engine) storePath(content Value, path []PathElem, v Value, cond *T) Val
 
 // Load reads through a pointer; nil alternatives become panic records.
 func (e *Engine) Load(st *St, p *PtrV, what string) Value {
+	return e.LoadIf(st, p, e.S.True, what)
+}
+
+// LoadIf is Load for an access that only happens when cond holds (element reads guarded by a
+// length test inside append/copy/string comparison): a nil alternative is a panic only then.
+func (e *Engine) LoadIf(st *St, p *PtrV, cond *T, what string) Value {
 	var res Value
 	first := true
 	for i := len(p.Alts) - 1; i >= 0; i-- {
 		a := p.Alts[i]
 		if a.Obj == 0 {
-			e.panicIf(st, a.G, "nil pointer dereference ("+what+")")
+			e.panicIf(st, e.S.And(a.G, cond), "nil pointer dereference ("+what+")")
 			continue
 		}
 		if e.S.And(st.pc, a.G).IsFalse() {
@@ -301,7 +307,7 @@ func (e *Engine) upperBound(t *T) (int, bool) {
 
 // byteAt: s[i] for strings and byte slices, without bounds check.
 func (e *Engine) byteAt(st *St, s *SliceV, i *T) *T {
-	v := e.Load(st, e.elemPtr(s, i), "byte index")
+	v := e.LoadIf(st, e.elemPtr(s, i), e.S.SLt(i, s.Len), "byte index")
 	if v == nil {
 		return e.S.Const(0, 8)
 	}
